@@ -326,11 +326,12 @@ def takeArgs (last : Target) (lex : Option String) (run : Run) : Except PErr (Li
        | [] => .error .cliError)
     | _ => .error (.unsupported "option arity")
 
-/-- the action of the last option; `_get_values` removes a `--` here too: `--opt=--` hands NO string to the action -/
+/-- the action of the last option.  `CLIParser._get_values` (cmdline.py) refuses an optional whose only string is `--`
+(`--opt=--`, `-G--`): argparse 3.12.1 would drop it and hand NO string to the action. -/
 def lastAction (bind : Bind) (last : Target) (toks : List String) (st : PState) : Except PErr PState :=
   match last with
   | .help => .error .helpExit
-  | .opt o => takeAction bind o (toks.erase "--") st
+  | .opt o => if toks == ["--"] then .error .cliError else takeAction bind o (toks.erase "--") st
 
 /-- `consume_optional`: the chain is worked out first (errors before any action), the last option takes its
 arguments from the explicit argument or from the run that follows, then the actions run in order -/
